@@ -232,7 +232,7 @@ class Sim:
         w = getattr(self.current, 'w', None)
         if w is not None:
             if self.preempt:
-                if self.stall_p and tag != 'fs.read' and self.ch.chance(self.stall_p):
+                if self.stall_p and tag not in ('fs.read', 'db.get') and self.ch.chance(self.stall_p):
                     d = self.ch.delay(0.001, self.stall_max)
                     w.blocked_until = self.now + d
                     self.stats['stall'] += 1
